@@ -1017,6 +1017,7 @@ func Gen(w *bufio.Writer, seed uint64, tier string) {
 	// (d) allocation layer on synthetic tables (writer.go)
 	genWriter(w, hx.NewRng(seed^0xa110c), tier)
 	genAtab(w, hx.NewRng(seed^0xa7ab), tier)
+	genWb(w, hx.NewRng(seed^0xb17e5), tier, seed) // byte-level writer model (wbytes.go)
 	// (c) digest: tar vs direct on every generated shape once more, unmodified
 	for _, shift := range []int{9, 12} {
 		for _, v := range []string{"plain", "nested", "nested+presigned", "gaps+presigned", "nested+nomini", "emptystorage", "embedded", "embedded+presigned"} {
@@ -1228,6 +1229,9 @@ func Impl() {
 		case "wr":
 			seq++
 			return implWr(tmp, seq, f)
+		case "wb":
+			seq++
+			return implWb(tmp, seq, f)
 		case "digest":
 			seq++
 			p := filepath.Join(tmp, fmt.Sprintf("d%d.msi", seq))
